@@ -107,6 +107,21 @@ def check(chk):
               'the heartbeat\'s unit of capacity is not returned exactly once on success (or is returned on failure / for another connection)')
     r2 = [n for n in resets if any(n.ast is x for x in ast.walk(wl))]
     chk.judge(len(r2) == 1, 'C44.capacity', wl, 'the answered heartbeat itself does not count as traffic (reset_idle after success)', 'reset after success removed', nontrivial=False)
+    if len(r2) == 1 and decs:
+        # ... for every kind of connection: each normal path from the decrement back to the loop head passes the reset
+        seen_, work_, skipped = set(), [x for x, l_ in decs[0].succ if not (l_ and l_[0] == 'exc')], False
+        while work_:
+            n_ = work_.pop()
+            if n_.id in seen_ or n_ is r2[0]:
+                continue
+            seen_.add(n_.id)
+            if n_.kind in ('for_iter', 'exit'):
+                skipped = True
+                break
+            work_.extend(x for x, l_ in n_.succ if not (l_ and l_[0] == 'exc'))
+        chk.judge(not skipped, 'C44.capacity', r2[0].ast, 'after an answered heartbeat reset_idle() runs on every path (pooled and control connections alike)',
+                  'some answered heartbeats do not reset the idle flag: the answer itself set msg_received, so that connection looks busy in the next round and is '
+                  'heartbeated only every second interval')
     # failures
     apps = [n for n in body_walk(run) if isinstance(n, ast.Call) and src(n.func) == 'failed_connections.append']
     if len(apps) != 2:
